@@ -388,6 +388,19 @@ impl QueryProp {
                         if got.len() > want.len() + 2 { break; }
                     }
                     stop_at_tick(0);
+                    if end == "timeout" {
+                        // the user asks the timed-out node again (the query program's loop does): whatever comes back must be
+                        // the timeout message, `No more.`, or one of the query's answers - never something the query does not have
+                        for _ in 0..2 {
+                            let again = suiron::solve(Rc::clone(&sn));
+                            if again == TIMEOUT_MSG {
+                                if t0.elapsed() < Duration::from_millis(500) { return Err(fail(self.id, "false-timeout", "asked again after a timeout: timeout message at once".into(), case)); }
+                                break;
+                            }
+                            if again == NO_MORE { break; }
+                            if !want.contains(&again) { return Err(fail(self.id, "not-an-answer", format!("asked again after a timeout: {:?} is not among the answers {:?}", again, want), case)); }
+                        }
+                    }
                     if got.len() > want.len() || got[..] != want[..got.len()] { return Err(fail(self.id, "not-a-prefix-of-the-answers", format!("answers: {:?}\nsolve returned: {:?} then {}", want, got, end), case)); }
                     if end == "no-more" && got.len() != want.len() { return Err(fail(self.id, "incomplete-without-timeout", format!("answers: {:?}\nsolve returned: {:?} then `No more.`", want, got), case)); }
                     if end == "timeout" { fired += 1; }
@@ -447,6 +460,13 @@ impl QueryProp {
                 if variant == 3 { text.push_str("q($X) :- early($X). q($X) :- not(slowtrue), $X = m1. q($X) :- late($X). "); }
                 else { text.push_str("q($X) :- early($X). q(m1) :- not(slowtrue). q($X) :- late($X). "); }
             }
+            5 => {
+                // as 3, but the clause with not(...) is the *last* clause of q: nothing is tried after it, so what the
+                // node remembers of that clause is what a later request on the same node resumes
+                text.push_str(&format!("all_n({}). slowtrue :- {}, all_n({}). ", (0..depth).map(|_| n.to_string()).collect::<Vec<_>>().join(", "), gens.join(", "), vars.join(", ")));
+                text.push_str("q($X) :- early($X). q($X) :- late($X). q($X) :- mid($X), not(slowtrue), $Y = $X. ");
+                expected.push("$X = z1".into()); expected.push("$X = z2".into());
+            }
             _ => {
                 // answers appear inside the loop: when all generators agree on 1, on n/2 (if > 1) and on n
                 let mut ks = vec![1u32]; if n / 2 > 1 { ks.push(n / 2); } if n > 1 && n != n / 2 { ks.push(n); }
@@ -454,10 +474,10 @@ impl QueryProp {
                 text.push_str(&format!("q($X) :- early($X). q($X) :- {}, hit({}, $X). q($X) :- late($X). ", gens.join(", "), vars.join(", ")));
             }
         }
-        expected.push("$X = z1".into()); expected.push("$X = z2".into());
+        if variant != 5 { expected.push("$X = z1".into()); expected.push("$X = z2".into()); }
         text.push_str("?- q($X).");
         let p = match parse_program(&text) { Ok(p) => p, Err(e) => panic!("harness: slow program does not parse: {}", e) };
-        let case = format!("slow query: n = {} facts, {} nested generators, variant {}, via {}\n{}", n, depth, ["burn", "not(burn)", "answers-in-loop", "not(provable-at-the-end), then =", "not(provable-at-the-end) as last goal"][variant as usize], if use_solve { "solve" } else { "solve_all" },
+        let case = format!("slow query: n = {} facts, {} nested generators, variant {}, via {}\n{}", n, depth, ["burn", "not(burn)", "answers-in-loop", "not(provable-at-the-end), then =", "not(provable-at-the-end) as last goal", "not(provable-at-the-end) in the last clause"][variant as usize], if use_solve { "solve" } else { "solve_all" },
                            text.split(". ").filter(|l| !l.starts_with("d(")).collect::<Vec<_>>().join(". "));
         let r = guarded(u64::MAX, || -> Result<(bool, f64), CaseResult> {
             suiron::start_query();
@@ -592,7 +612,7 @@ impl Property for QueryProp {
                     let t8 = calibrate();
                     let target = [0.15, 0.4, 0.8, 1.2, 1.6, 2.5][s.draw(6) as usize];
                     let n = (8.0 * (target / t8).powf(0.2)).round().max(2.0).min(60.0) as u32;
-                    self.slow(n, 5, s.draw(5), chance(s, 1, 2), rep)
+                    self.slow(n, 5, [0, 1, 2, 3, 4, 5, 5][s.draw(7) as usize], chance(s, 1, 2), rep)
                 }
                 _ => { let n = 300 + 500 * s.draw(4) as usize; let k = s.draw(6) as usize; self.stray_timer(n, k, rep) },
             },
@@ -619,7 +639,7 @@ impl Property for QueryProp {
             QAspect::Timeout => {
                 // always: queries on both sides of the limit (sized by calibration), and one stray-timer round
                 let t8 = calibrate();
-                for (i, (target, variant, use_solve)) in [(2.2, 0u32, false), (1.8, 2, true), (0.3, 1, false), (2.0, 3, false), (1.7, 4, false)].iter().enumerate() {
+                for (i, (target, variant, use_solve)) in [(2.2, 0u32, false), (1.8, 2, true), (0.3, 1, false), (2.0, 3, false), (1.7, 4, false), (1.8, 5, true)].iter().enumerate() {
                     let n = (8.0 * (target / t8).powf(0.2)).round().max(2.0).min(60.0) as u32;
                     out.push((format!("slow-{}", i), self.slow(n, 5, *variant, *use_solve, rep)));
                 }
